@@ -1221,6 +1221,10 @@ func (g *c07Gen) word() string {
 	if g.r.coin(1, 150) {
 		return "t\tab"
 	}
+	if g.r.coin(1, 25) {
+		// values ending in (or consisting of) blanks: legal, and significant on re-parse
+		return []string{"v1 ", " ", "a b ", " lead", "cmd -x  "}[g.r.intn(5)]
+	}
 	return c07Words[g.r.intn(len(c07Words))]
 }
 func (g *c07Gen) optWord() string {
@@ -1448,7 +1452,7 @@ func (g *c07Gen) text(withHD bool, malformed bool) string {
 		lines = append(lines, g.pgLine(g.pgSpec()))
 	}
 	for n := g.r.intn(3); n > 0; n-- {
-		lines = append(lines, "@CO\t"+[]string{"a comment", "two\tfields", "", "tab at end\t", "\tleading", "x\ty\tz"}[g.r.intn(6)])
+		lines = append(lines, "@CO\t"+[]string{"a comment", "two\tfields", "", "tab at end\t", "\tleading", "x\ty\tz", "blank at end ", " "}[g.r.intn(8)])
 	}
 	if malformed {
 		k := g.r.intn(len(lines) + 1)
@@ -1674,7 +1678,7 @@ func c07Generate(r *Rand, maxOps int, canonURI bool) *c07Gen {
 				g.emit(c07Op{K: "hd", S: "", Hs: ps})
 			}
 		case k < 96:
-			g.emit(c07Op{K: "co", H: h, S: []string{"free text", "with\ttab", "", "é"}[r.intn(4)]})
+			g.emit(c07Op{K: "co", H: h, S: []string{"free text", "with\ttab", "", "é", "blank at end ", " "}[r.intn(6)]})
 		case k < 98:
 			tag := []string{"SS", "XX", "ab", "SO", "GO", "VN"}[r.intn(6)]
 			val := []string{"", "v", "coordinate", "query", "1.6", "a:b"}[r.intn(6)]
